@@ -282,7 +282,8 @@ func (ex *Exec) applyContract(fr *Frame, st *State, fc *FuncContract, names []st
 	ex.callOrd[calleeName]++
 	for _, cl := range fc.Requires {
 		env := mkEnv(st, st)
-		g := env.evalBool(cl.Expr)
+		g, sk := env.evalGoalSkolem(cl.Expr)
+		ex.instantiateHyps(sk)
 		lbl := calleeName
 		if cl.Label != "" {
 			lbl += "." + cl.Label
@@ -360,6 +361,20 @@ func (ex *Exec) applyContract(fr *Frame, st *State, fc *FuncContract, names []st
 		env := mkEnv(post, pre)
 		bindResults(env, rvals, rnames)
 		ex.cx.assume(implies(post.reach, env.evalBool(cl.Expr)))
+		if containsQuant(cl.Expr) {
+			cl, postSt := cl, post.clone()
+			ex.qhyps = append(ex.qhyps, qhyp{guard: post.reach, inst: func(sk map[string]SVal) (Term, bool) {
+				henv := mkEnv(postSt, pre)
+				bindResults(henv, rvals, rnames)
+				nUnsup := len(ex.cx.unsupported)
+				t := henv.evalInstance(cl.Expr, sk)
+				if len(ex.cx.unsupported) != nUnsup {
+					ex.cx.unsupported = ex.cx.unsupported[:nUnsup]
+					return Term{}, false
+				}
+				return t, true
+			}})
+		}
 	}
 	return rv, post
 }
@@ -566,4 +581,20 @@ func (ex *Exec) appendBuiltin(fr *Frame, st *State, c *ssa.CallCommon, args []Va
 		ex.cx.assume(not(eq(app(SRef, "sarr", res), tNull)))
 	}
 	return Sc{res}
+}
+
+func containsQuant(e Expr) bool {
+	switch x := e.(type) {
+	case *EQuant:
+		return true
+	case *EBin:
+		return containsQuant(x.L) || containsQuant(x.R)
+	case *EUn:
+		return containsQuant(x.X)
+	case *ECond:
+		return containsQuant(x.C) || containsQuant(x.A) || containsQuant(x.B)
+	case *EOld:
+		return containsQuant(x.X)
+	}
+	return false
 }
